@@ -1,4 +1,5 @@
 import StepupModel.K.Scheduler
+import StepupModel.Lemmas.StableInst
 /-!
 # C08  Every path has one owner and conflicts are rejected in either order
 
@@ -142,5 +143,30 @@ theorem declare_under_tree_rejected (s : KState) (cfg : KConfig) (creator : Key)
   unfold KState.declareFile KState.declareFileGuard KState.declareFileChecks
   rw [if_pos hdecl]
   simp [hv, hc, ht, bind, Except.bind, graphErr, throw, throwThe, MonadExceptOf.throw]
+
+/-! ## One claim per path, after every history -/
+
+theorem inj_of_nodup_map {α β : Type} (f : α → β) :
+    ∀ (l : List α), (l.map f).Nodup → ∀ a b, a ∈ l → b ∈ l → f a = f b → a = b := by
+  intro l
+  induction l with
+  | nil => intro _ a b ha; cases ha
+  | cons x xs ih =>
+    intro h a b ha hb hab
+    simp only [List.map_cons, List.nodup_cons, List.mem_map, not_exists, not_and] at h
+    simp only [List.mem_cons] at ha hb
+    rcases ha with rfl | ha <;> rcases hb with rfl | hb
+    · rfl
+    · exact absurd hab.symm (h.1 b hb)
+    · exact absurd hab (h.1 a ha)
+    · exact ih h.2 a b ha hb hab
+
+/-- In every reachable database a path has at most one file node (and a label at most one step),
+hence at most one declaration: one state (role) and one creator.  "At any time a path is claimed
+by at most one declaration (static file, step output or volatile output, by one creator)". -/
+theorem one_declaration_per_path_after_every_history (h : List (KConfig × Req)) (n1 n2 : Node)
+    (h1 : n1 ∈ (KState.init.run h).nodes) (h2 : n2 ∈ (KState.init.run h).nodes)
+    (hk : n1.key = n2.key) : n1 = n2 :=
+  inj_of_nodup_map (·.key) _ (keysNodup_reachable h) n1 n2 h1 h2 hk
 
 end StepupModel.Props.C08
